@@ -38,6 +38,8 @@ def cases(tier, seed):
         cs.append({'scen': 'c18_bilinear', 's': {'d': d, 'ky': 'ttm', 'B': B}})
     cs.append({'scen': 'c18_bilinear', 's': {'d': 2, 'dx': 1, 'B': B}})
     cs.append({'scen': 'c18_bilinear', 's': {'d': 2, 'dy': 1, 'B': B}})
+    cs.append({'scen': 'c18_bilinear', 's': {'d': 2, 'dx': 1, 'dy': 3, 'B': B}})      # (orders differ but the flat size lists can coincide)
+    cs.append({'scen': 'c18_bilinear', 's': {'d': 2, 'dx': 3, 'dy': 1, 'B': B}})
     # cat
     for d in [1, 2, 3]:
         for dim in range(-1, d + 1):
